@@ -27,7 +27,7 @@ RULE = (
     "other compiles; non-trivial = pattern with >= 1 field spec; distinct = distinct (pattern text, node fingerprint)"
 )
 ASSUMPTIONS = ["sequence patterns applied to str-valued fields and field names that are properties/methods are not generated (don't-care)"]
-MUST_SEE = ["subclass_defined_after_pattern_was_compiled", "variable_on_nodes_differing_in_noncompare_property", "variable_refers_to_captured_sequence", "nodes_with_non_field_attributes", "empty_sequence_spec", "pattern_after_class_redefinition", "empty_rule_selection", "regex_inner_whitespace", "rules_given_as_iter", "rules_given_as_gen", "regex_on_hash_equal_values", 
+MUST_SEE = ["variable_on_value_not_equal_to_itself", "subclass_defined_after_pattern_was_compiled", "variable_on_nodes_differing_in_noncompare_property", "variable_refers_to_captured_sequence", "nodes_with_non_field_attributes", "empty_sequence_spec", "pattern_after_class_redefinition", "empty_rule_selection", "regex_inner_whitespace", "rules_given_as_iter", "rules_given_as_gen", "regex_on_hash_equal_values", 
     "tail_vs_too_short", "capture_on_seq_with_tail", "two_any_captures", "var_node_other_origin", "second_alternative_subclass",
     "matches", "mismatches", "reasked", "multi_questions", "regex_middle_only", "tail_capture", "empty_seq_vs_nonempty", "reasked_after_rejected",
 ]
@@ -381,6 +381,28 @@ def run_shard(ctx):
             if got is not exp:
                 ctx.violation("verdict", "$name on nodes is content equality: two content-equal nodes that differ in a compare=False property (and in origin) satisfy it", {"pattern": text, "docs": (da, db), "got": got})
         holder.detach()
+
+    # ---- $name is ==, also when both fields hold one and the same object: a value that is not equal to itself (nan, a
+    # user's NULL marker) does not satisfy it ----
+    class _Null:
+        def __eq__(self, other):
+            return False
+
+        __hash__ = object.__hash__
+
+        def __str__(self):
+            return "NULL"
+
+    Typed = U.cls[f"{P}Typed"]
+    for val, exp in ((float("nan"), False), (_Null(), False), (7, True), ("x", True)):
+        for holder, text in ((U.cls[f"{P}List"](items=(Typed(ty=val),), label="n"), f"({P}List @items=[({P}Typed @ty -> t @ty=$t)])"), (Typed(ty=val), f"({P}Typed @ty -> t @ty=$t)")):
+            m, _msg = NodeMatcher.from_pattern(text)
+            ctx.evaluations += 1
+            ctx.count("variable_on_value_not_equal_to_itself")
+            got = m is not None and m.match(holder)[0]
+            if got is not exp:
+                ctx.violation("verdict", "$name compares with ==: a field compared with its own captured value matches exactly when that value is == to itself", {"pattern": text, "value": str(val), "got": got, "expected": exp})
+            holder.detach()
 
     # ---- [] denotes the empty tuple only (not an empty string, not None, not a non-empty tuple) ----
     Mixc = U.cls[f"{P}Mix"]
